@@ -171,6 +171,12 @@ def gen(seed, tier):
         out.append(f"ew1@{ty} s{hexs('positive')} {arr([len(vals)], vals)}")
     # integer element types at arguments where the function's value is a whole number (powers of ten / two / e-free):
     # the result is that number, not its neighbour (seeded change C05m: log10 as ln(x)/ln(10) gave 2 for 1000)
+    # angle conversions on integer element types: the f64 conversion of each element, converted back (seeded change
+    # C05p multiplied by the factor converted to the element type: 57 and 0)
+    for ty in ("i64", "i32", "i16"):
+        ang = [90, 180, 360, -270, 10, 100, 1, 0, 57, -3]
+        for op in ("degrees", "radians", "deg2rad", "rad2deg"):
+            out.append(f"ew1@{ty} s{hexs(op)} {arr([len(ang)], ang)}")
     for ty in ("i64", "u64"):
         odd = [2 ** 52 + 1, 2 ** 52 + 3, 2 ** 53 - 1, 2 ** 52 - 1, 7, 0]
         for op in ("rint", "floor", "ceil", "trunc", "fix"):
